@@ -1207,7 +1207,7 @@ def judge_c17(ops, impl):
                         bad.append((i, 'pattern %r differs from the only route %r in parameter names only, but was accepted' % (pattern, others[0])))
                 if r is not None and obs == 'reject:ambiguous':
                     if erase_names(pattern, r.ic) is not None and all(erase_names(p, r.ic) is not None for p in r.table) and \
-                            not any(erase_names(p, r.ic) == erase_names(pattern, r.ic) for p in r.table):
+                            not any(p != pattern and erase_names(p, r.ic) == erase_names(pattern, r.ic) for p in r.table):
                         bad.append((i, 'rejected as ambiguous although no live route is identical up to parameter names: %r vs %r' % (pattern, sorted(r.table)[:4])))
             continue
         if toks[0] in ('serve', 'routes') and int(toks[1]) in answers:
